@@ -42,6 +42,7 @@ sub!(c10, "c10.rs");
 sub!(c07, "c07.rs");
 sub!(c18, "c18.rs");
 sub!(c14, "c14.rs");
+sub!(c19, "c19.rs");
 
 pub async fn main() -> Result<(), easy_error::Terminator> {
     let args: Vec<String> = std::env::args().collect();
@@ -72,6 +73,7 @@ pub async fn main() -> Result<(), easy_error::Terminator> {
         "c07" => c07::run(&mut out).await,
         "c18" => c18::run(&mut out).await,
         "c14" => c14::run(&mut out).await,
+        "c19" => c19::run(&mut out).await,
         _ => {
             eprintln!("unknown mode {}", mode);
             std::process::exit(2);
